@@ -139,6 +139,7 @@ def run_world(plan, world=None):
   tr.plan = plan
   net = SimNet()
   net.install()
+  net.send_max = plan.get('send_max')      # most bytes one send() call accepts (sendall is unaffected)
   tr.net = net
   stack = plan['stack']
   iface_name = plan.get('iface', 'hello')
